@@ -984,6 +984,25 @@ theorem filter_exact (bound : FilterForm) (p : Pred) (body : Body) (c : Sre) (s 
   · intro e x h hp
     simp [exec, filterExit, callPred, lemma_mkFilter, h, hp, St.through, Heap.through, Heap.setTb]
 
+/-- **The predicate's answer counts by its truth value**, whatever object it is (`True`, `1`, a match
+    object, a non-empty tuple … accept; `False`, `0`, `None`, `''`, `[]` … reject). -/
+theorem filter_accepts_iff_truthy (p : Pred) (e : ExcId) (h : p.raises.lookup e = none) :
+    (p.eval e = .accept ↔ (p.value e).truthy = true) ∧ (p.eval e = .reject ↔ (p.value e).truthy = false) := by
+  simp only [Pred.eval, h]
+  cases (p.value e).truthy <;> simp
+
+/-- **Both entry points of one filter agree**: `with filt: raise e` ends normally exactly when
+    `filt(e)` (called while `e` is being handled) returns, namely when the predicate's answer for `e` is
+    true — for every way of making the filter and every kind of answer object. -/
+theorem filter_ctx_call_agree (form : FilterForm) (p : Pred) (e : ExcId) (c : Sre) (s : St) :
+    ((exec (.filterCtx form p (.raiseNew e)) c s).out = .ok ↔ p.eval e = .accept) ∧
+    ((exec (.handle e (.filterCall form p e)) c s).out = .ok ↔ p.eval e = .accept) := by
+  constructor
+  · simp only [exec, filterExit, callPred, lemma_mkFilter]
+    cases p.eval e <;> simp
+  · simp only [exec, filterCall, callPred, lemma_mkFilter]
+    cases p.eval e <;> simp [St.active, St.through]
+
 theorem filter_suppresses_iff (bound : FilterForm) (p : Pred) (body : Body) (c : Sre) (s : St) :
     (exec (.filterCtx bound p body) c s).out = .ok ↔
       ((exec body c s).out = .ok ∨ ∃ e, (exec body c s).out = .raised e ∧ p.eval e = .accept) := by
@@ -1174,7 +1193,7 @@ example : demoState.active = none ∧ (run true (.handle 0 (.seq .capture (.forc
 
 -- filter_exact: each of the four cases occurs
 example :
-    let p : Pred := ⟨[1], [(2, 0)]⟩
+    let p : Pred := ⟨[1], [(2, 0)], .matchObj, .list 0⟩
     p.eval 1 = .accept ∧ p.eval 0 = .reject ∧ p.eval 2 = .raises 0 ∧
     (run true (.filterCtx .method p (.raiseNew 1)) demoState).out = .ok ∧
     (run true (.filterCtx .func p (.raiseNew 0)) demoState).out = .raised 0 ∧
